@@ -71,7 +71,16 @@ def strategy_(g):
             z = [rnd.uniform(0.0, 2 * s)]
         else:
             z = g.vec(n, s=s)
-        return {"shape": "edge", "tag": tag, "ops": ops, "z": z, "info": g.sym_matrix(n, max_cond=1e2, kind=g.choice(["spd", "ident"]))}
+        case = {"shape": "edge", "tag": tag, "ops": ops, "z": z, "info": g.sym_matrix(n, max_cond=1e2, kind=g.choice(["spd", "ident"]))}
+        # history: a second state for the vertices of the same edge object (after a chi2 query)
+        case["ops_b"] = [g.pose(k, s=s) for k in kinds]
+        if tag in ("dist", "range"):
+            pb = [o["v"][: R.PDIM[o["k"]]] for o in case["ops_b"]]
+            if float(np.linalg.norm(np.array(pb[0]) - np.array(pb[1]))) < 0.1:
+                case["ops_b"][0]["v"][0] += 3.0
+        # all vertices of one kind may start from ONE pose object (e.g. every unknown initialised from the same origin object)
+        case["shared_pose"] = bool(tag in ("relpose", "mid", "eqstep") and len(set(kinds)) == 1 and g.choice([False, False, True]))
+        return case
     cond = g.choice([1.0, 1e2])
     nz = 0.05 / cond
     case = GG.gen(g, bases=("se2", "se3", "r2", "r3"), n_pose=(3, 12), n_lm=(0, 3), n_loops=(0, 4), conds=(cond,), noise=(nz, nz), pert=(0.3, 0.3), features=("parallel", "reversed", "permute", "ids", "multifixed", "custom", "quat-signs"), custom_flavour="num")
@@ -108,7 +117,11 @@ def summarise(case):
 
 def _build_edge(case, flavour):
     kinds = [o["k"] for o in case["ops"]]
-    verts = [gs.Vertex(i, gs.mk_pose(o)) for i, o in enumerate(case["ops"])]
+    if case.get("shared_pose"):
+        shared = gs.mk_pose(case["ops"][0])
+        verts = [gs.Vertex(i, shared) for i, o in enumerate(case["ops"])]
+    else:
+        verts = [gs.Vertex(i, gs.mk_pose(o)) for i, o in enumerate(case["ops"])]
     z = case["z"]
     est = gs.mk_pose(z) if isinstance(z, dict) else (np.array(z, dtype=float) if case["tag"] in ("mid", "eqstep") else float(z[0]))
     e = CE.CLASSES[(case["tag"], flavour)](list(range(len(verts))), np.array(case["info"], dtype=float), est, verts)
@@ -125,10 +138,26 @@ def _check_edge(case, ctx):
     tag = case["tag"]
     e, verts, kinds = _build_edge(case, "num")
     ctx.event("edge:" + tag)
-    ctx.event("kinds:" + "+".join(kinds))
-    ctx.nontrivial(len(set(kinds)) >= 2 or len(kinds) == 3)
-    S_ = max([gs.max_trans(o) for o in case["ops"]] + ([gs.max_trans(case["z"])] if isinstance(case["z"], dict) else [max(abs(x) for x in case["z"])]))
+    if case.get("shared_pose"):
+        ctx.event("vertices-share-one-pose-object")
+    if _check_edge_state(case, ctx, e, verts, kinds, ""):
+        return
+    if "ops_b" in case and not case.get("shared_pose"):
+        # history on the same edge object: chi2 query, then the vertices move, then the numeric Jacobians are requested
+        e.calc_chi2()
+        for v, o in zip(verts, case["ops_b"]):
+            v.pose = gs.mk_pose(o)
+        _check_edge_state(case, ctx, e, verts, kinds, " (after calc_chi2 and moving the vertices)")
+
+
+def _check_edge_state(case, ctx, e, verts, kinds, label):
+    """Numeric Jacobians of `e` at the current vertex poses vs the AD truth.  Returns True on failure / skip."""
+    tag = case["tag"]
+    if not label:
+        ctx.event("kinds:" + "+".join(kinds))
+        ctx.nontrivial(len(set(kinds)) >= 2 or len(kinds) == 3)
     ops = [gs.stored(v.pose) for v in verts]
+    S_ = max([gs.max_trans((k, o)) for k, o in zip(kinds, ops)] + ([gs.max_trans(case["z"])] if isinstance(case["z"], dict) else [max(abs(x) for x in case["z"])]))
     z = CE.estimate_to_list(e)
     e_ref, J_ref = CE.ref_error_and_jacobians(tag, kinds, ops, z)
     e_code = np.atleast_1d(np.array(e.calc_error(), dtype=float))
@@ -142,10 +171,10 @@ def _check_edge(case, ctx):
     # error wraps or the canonical SE(3) error sign flips (a forward difference across the jump is meaningless)
     if tag in ("relpose", "prior") and kinds[0] == "se2" and abs(abs(e_code[2]) - np.pi) < 1e-3:
         ctx.event("skipped:error-at-se2-wrap")
-        return
+        return True
     if tag == "relpose" and kinds[0] == "se3" and 1.0 - float(np.dot(e_code[3:], e_code[3:])) < 1e-5:
         ctx.event("skipped:error-at-180deg")
-        return
+        return True
     before = [gs.bits(v.pose) for v in verts]
     Js = BaseEdge.calc_jacobians(e)
     if [gs.bits(v.pose) for v in verts] != before:
@@ -168,9 +197,9 @@ def _check_edge(case, ctx):
             tol[:, d] = 2 * (H / 2) * d2 + 128 * EPS * (1 + S_) * (1 + np.abs(Jr[:, d])) / H + 1e-9
         if tag in ("relpose", "prior") and kinds[0] == "se2":
             pass
-        if ctx.check_close("numeric-jacobian-inaccurate", "numeric Jacobian[%d] of %s" % (vi, tag), J, Jr, tol, "+".join(kinds)):
-            return
-
+        if ctx.check_close("numeric-jacobian-inaccurate", "numeric Jacobian[%d] of %s%s" % (vi, tag, label), J, Jr, tol, "+".join(kinds)):
+            return True
+    return False
 
 def _with_flavour(case, fl):
     c = copy.deepcopy(case)
